@@ -1,4 +1,4 @@
-import Norad.Model.FontInfoUp
+import Norad.Lemmas.FontInfoUp
 import Norad.Spec.FontInfoUp
 import Norad.Props.C13
 /-!
@@ -9,9 +9,6 @@ Property theorems.  `Gen.*` are the tables regenerated from the Rust source by `
 path of `Font::load` (`Model/FontInfoUp.lean`).  The table equalities are re-checked by the kernel
 against whatever the code says on every run.
 
-OPEN (covered by the correspondence and the oracle only, not yet a theorem):
-  hint_data_moved — for a successful format-1 load with hint data `h`, every entry `(k, v) ∈ h` with
-  `(k, k3) ∈ Gen.hintRows` satisfies `getKey o.info k3 = some (flatten v)` (fold over `setKey`).
 -/
 namespace C14
 open FI
@@ -286,6 +283,37 @@ theorem feature_text_with_order (cls : Option String) (order : List String) (fs 
 
 theorem feature_text_without_features (cls : Option String) (order : Option (List String)) :
     featureText { classes := cls, order := order, feats := none } = cls.getD "" := rfl
+
+/-- **the PostScript hinting data kept in the format-1 lib is moved to font info**: after a successful
+    load of a format-1 font whose lib holds hint data `h`, every entry of `h` sits under its font-info
+    attribute (zone lists flattened), and an entry that is absent leaves the unconditional attributes unset -/
+theorem hint_data_moved (i : Input) (o : Output) (h : List (String × Val)) (h1 : i.fmt = 1)
+    (hl : i.hasLib = true) (hh : i.robofab.hint = some h) (hload : load i = .ok o) :
+    ∀ row ∈ Gen.hintRows,
+      (∀ v, lookup h row.1 = some v → getKey o.info row.2 = some (flatten v)) ∧
+      (lookup h row.1 = none → hintConditional.contains row.1 = false → getKey o.info row.2 = none) := by
+  have hnd : (Gen.hintRows.map (·.2)).Nodup := by decide +kernel
+  have hinfo : ∃ info, o.info = applyHints Gen.hintRows h info := by
+    unfold load at hload
+    cases hf : fromFile i.fmt i.attrs with
+    | error e => simp [hf] at hload
+    | ok info =>
+      simp only [hf] at hload
+      simp only [h1, hl, Bool.and_self, if_true, decide_true, hh] at hload
+      cases hs : validated (applyHints Gen.hintRows h info) with
+      | error e => simp [hs] at hload
+      | ok info' =>
+        simp only [hs, Except.ok.injEq] at hload
+        refine ⟨info, ?_⟩
+        rw [← hload]
+        exact (validated_ok hs).1
+  obtain ⟨info, e⟩ := hinfo
+  intro row hrow
+  obtain ⟨acc', hacc⟩ := foldl_hintStep_row h Gen.hintRows hnd info row hrow
+  rw [e]
+  unfold applyHints
+  rw [hacc]
+  exact ⟨fun v hv => hintStep_some _ _ _ _ hv, fun hn hc => hintStep_none _ _ _ hn hc⟩
 
 /-! ### non-vacuity -/
 
